@@ -16,7 +16,7 @@ GSTRATS = ["append", "append_rev"]
 
 MC_CONFIGS = {
     "quick": ["layout_quick", "requests_native_quick", "requests_generic", "convert_quick"],
-    "thorough": ["layout_quick", "layout_zst", "layout_wide", "layout_odd", "requests_native",
+    "thorough": ["layout_deep", "layout_zst", "layout_wide", "layout_odd", "requests_native",
                  "requests_generic", "convert"],
 }
 # which MC configuration speaks for which property (evidence)
@@ -291,15 +291,36 @@ def split_chunks(path):
 
 
 def run_histories(histories, out_dir, bin_dir, nshards=14, tag="h"):
-    hp = os.path.join(out_dir, tag + "_histories.ndjson")
-    with open(hp, "w") as f:
-        for h in histories:
-            f.write(json.dumps({k: h[k] for k in ("hid", "group", "kind", "calls", "converts")}) + "\n")
     drv = os.path.join(bin_dir, "builder_driver")
+    # the driver is sequential: run it on K chunks of the histories in parallel processes
+    K = max(1, min(12, len(histories) // 200))
+    parts = [histories[i::K] for i in range(K)]
+
+    def one(args):
+        k, mode = args
+        hp = os.path.join(out_dir, "%s_histories_%02d.ndjson" % (tag, k))
+        if mode == "A":
+            with open(hp, "w") as f:
+                for h in parts[k]:
+                    f.write(json.dumps({x: h[x] for x in ("hid", "group", "kind", "calls", "converts")}) + "\n")
+        tp = os.path.join(out_dir, "%s_trace%s_%02d.ndjson" % (tag, mode, k))
+        sh([drv, hp, tp, mode], timeout=7200)      # mode B: a separately started process
+        return tp
+
+    with ThreadPoolExecutor(max_workers=K) as ex:
+        tas = list(ex.map(one, [(k, "A") for k in range(K)]))
+        tbs = list(ex.map(one, [(k, "B") for k in range(K)]))
     ta = os.path.join(out_dir, tag + "_traceA.ndjson")
     tb = os.path.join(out_dir, tag + "_traceB.ndjson")
-    _, o1 = sh([drv, hp, ta, "A"], timeout=1800)
-    _, o2 = sh([drv, hp, tb, "B"], timeout=1800)  # a separately started process
+    for dst, srcs in ((ta, tas), (tb, tbs)):
+        with open(dst, "w") as o:
+            for sp in srcs:
+                with open(sp) as f:
+                    for line in f:
+                        o.write(line)
+                os.remove(sp)
+    for k in range(K):
+        os.remove(os.path.join(out_dir, "%s_histories_%02d.ndjson" % (tag, k)))
     ca = split_chunks(ta)
     cb = {}
     for hid, lines in split_chunks(tb):
@@ -312,7 +333,8 @@ def run_histories(histories, out_dir, bin_dir, nshards=14, tag="h"):
             by[hid] = []
             order.append(hid)
         by[hid] += lines
-    nshards = max(1, min(nshards, len(order) // 40 + 1))
+    # about 1500 histories (~150 k events) per shard: TLC reads a whole shard into memory
+    nshards = max(1, min(max(nshards, len(order) // 1500 + 1), len(order) // 40 + 1))
     shard_files = [os.path.join(out_dir, "%s_shard%02d.ndjson" % (tag, i)) for i in range(nshards)]
     outs = [open(p, "w") for p in shard_files]
     nev = 0
@@ -358,14 +380,14 @@ def drift_report(histories, shard_files):
 def pipeline(tier, seed):
     def compute(out_dir):
         t0 = time.time()
-        bin_dir = cargo_build(["builder_driver"])
+        bin_dir = cargo_build(["builder_driver"], release=True)
         res = {"tier": tier, "seed": seed}
         res["mc"] = s1_model_check(tier, out_dir)
         lines, res["replay_gen"] = s2_replay_gen(tier, out_dir)
         rng = random.Random(seed)
         hs = corpus_histories(1)
         ncorpus = len(hs)
-        cap = 1500 if tier == "quick" else 200000
+        cap = 1500 if tier == "quick" else 60000
         if len(lines) > cap:
             idx = sorted(rng.sample(range(len(lines)), cap))
             lines = [lines[i] for i in idx]
@@ -375,7 +397,7 @@ def pipeline(tier, seed):
                 hs.append(h)
         ntlc = len(hs) - ncorpus
         nrand = {"quick": {"layout": 800, "requests": 800, "big": 60},
-                 "thorough": {"layout": 40000, "requests": 40000, "big": 3000}}[tier]
+                 "thorough": {"layout": 20000, "requests": 20000, "big": 1500}}[tier]
         for prof, n in nrand.items():
             for _ in range(n):
                 hs.append(random_history(rng, len(hs) + 1, prof))
